@@ -34,6 +34,7 @@ class UserDeleteNode(ActionGroup):
         """
         super().__init__(tracks, actions=[])
         self.tracks: SolutionTracks  # Narrow type from base class
+        has_pred = len(self.tracks.predecessors(node)) > 0
         # delete adjacent edges
         for pred in self.tracks.predecessors(node):
             siblings = self.tracks.successors(pred)
@@ -46,7 +47,8 @@ class UserDeleteNode(ActionGroup):
                 new_track_id = self.tracks.get_track_id(pred)
                 self.actions.append(UpdateTrackIDs(tracks, sib, new_track_id))
             self.actions.append(DeleteEdge(tracks, (pred, node)))
-        for succ in self.tracks.successors(node):
+        detached = self.tracks.successors(node)
+        for succ in detached:
             self.actions.append(DeleteEdge(tracks, (node, succ)))
 
         # connect child and parent in track, if applicable
@@ -56,6 +58,20 @@ class UserDeleteNode(ActionGroup):
             predecessor, successor = self.tracks.get_track_neighbors(track_id, time)
             if predecessor is not None and successor is not None:
                 self.actions.append(AddEdge(tracks, (predecessor, successor)))
+                if successor in detached:
+                    detached.remove(successor)
+
+        # every subtree that is no longer connected to the rest becomes a lineage of its
+        # own (if the node had no predecessor, the first subtree keeps the lineage id)
+        for succ in detached if has_pred else detached[1:]:
+            self.actions.append(
+                UpdateTrackIDs(
+                    tracks,
+                    succ,
+                    self.tracks.get_track_id(succ),
+                    self.tracks.get_next_lineage_id(),
+                )
+            )
 
         # delete node
         self.actions.append(DeleteNode(tracks, node, pixels=pixels))
